@@ -9,6 +9,7 @@ import (
 	"go.lsp.dev/protocol"
 
 	"github.com/juev/hledger-lsp/internal/include"
+	"github.com/juev/hledger-lsp/internal/verifhook"
 )
 
 type featureSettings struct {
@@ -149,6 +150,7 @@ func (s *Server) refreshConfiguration(ctx context.Context) {
 	if err != nil || len(result) == 0 {
 		return
 	}
+	verifhook.At("config.fetched", "")
 	settings := parseSettingsFromRaw(s.getSettings(), result[0])
 	s.setSettings(settings)
 }
